@@ -923,6 +923,9 @@ class Element(object):
                     if previous is not None:
                         # one of the new children is refused: the element keeps the children it had
                         super(Element, self).__setattr__(name, previous)
+                        for c in value.list:
+                            if c._parent is self and not any(c is p for p in previous.list):
+                                c._parent = None  # admitted before the refusal: it must not point at an element that does not list it
                     raise
             else:
                 super(Element, self).__setattr__(name, value)
